@@ -243,7 +243,15 @@ def name_problem(fn):
 
 
 def fold(fn):
-    return fn.casefold()
+    """Simple (one-to-one) Unicode case folding, character by character: the relation that
+    case-insensitive file systems implement with an upper-case table (NTFS $UpCase, HFS+).
+    Multi-character foldings (sharp s -> ss, ligature fi -> fi) are NOT identified: those names
+    are distinct files on such systems."""
+    out = []
+    for c in fn:
+        f = c.casefold()
+        out.append(f if len(f) == 1 else c.lower() if len(c.lower()) == 1 else c)
+    return "".join(out)
 
 
 class ShadowDir:
